@@ -33,7 +33,7 @@ func dumpBucket(db *bbolt.DB, name string) string {
 
 func TestC29VersionUpgradeOnlyWhenIdle(t *testing.T) {
 	col := stats.Get("C29.upgrade")
-	dir, _ := os.MkdirTemp("", "c29")
+	dir := fastTempDir("c29")
 	defer os.RemoveAll(dir)
 	n := 0
 	rapid.Check(t, func(t *rapid.T) {
